@@ -33,6 +33,8 @@ def gen_case(rng):
         for j, w, s_ in zip(others, ws, sg):
             M[i][j] = s_ * w / sum(ws)
     b = [rng.choice([0.0, 0.5, -0.25, 1.0]) for _ in range(n)]
+    if rng.random() < 0.3:      # coupling values of large magnitude (un-normalised physical quantities): the tolerance is absolute
+        b = [rng.choice([300.0, -750.0, 1200.0]) for _ in range(n)]
     mixed = rng.random() < 0.5      # designed to contain both converging and non-converging samples in one batch
     return dict(n=n, kind=kind, M=M, b=b,
                 tol=rng.choice([1e-4, 1e-6, 1e-8, 1e-10, 1e-12]),
@@ -65,7 +67,11 @@ def build(case, log):
                 if j != i:
                     cj = np.atleast_1d(inputs[f'c{j}']).astype(float)
                     acc = acc + case['M'][i][j] * (cj if case['kind'] == 'affine' else np.sin(cj))
-            out = {f'c{i}': r * acc + case['b'][i]}
+            bi = case['b'][i]
+            if case.get('amp_sid') is not None:
+                # ONE sample of the batch lives on a scale 1e5 times larger than the others
+                bi = bi * np.where(np.atleast_1d(inputs['sid']) == case['amp_sid'], 1.0e5, 1.0)
+            out = {f'c{i}': r * acc + bi}
             if i == 0 and case.get('poison_sid') is not None:
                 # the model is undefined (NaN) on one sample of the batch from the very first sweep on
                 out['c0'] = np.where(np.atleast_1d(inputs['sid']) == case['poison_sid'], np.nan, out['c0'])
@@ -78,7 +84,14 @@ def build(case, log):
         comps.append(Component(model, inputs=ins, outputs=outs, name=f'm{i}', vectorized=True))
     if case['downstream']:
         def dmodel(inputs):
-            out = {'d': np.atleast_1d(inputs['c0']) * 3.0 + np.atleast_1d(inputs['sid']) * 0.0 + 1.0}
+            c0 = np.atleast_1d(inputs['c0'])
+            if case['seed'] % 2 == 0:
+                # a model that does NOT forward NaN by itself (a regime switch): were it evaluated for a non-converged sample,
+                # it would return a finite number
+                with np.errstate(invalid='ignore'):
+                    out = {'d': np.where(c0 > 0.25, 2.0, -1.0) + np.atleast_1d(inputs['sid']) * 0.0}
+            else:
+                out = {'d': c0 * 3.0 + np.atleast_1d(inputs['sid']) * 0.0 + 1.0}
             log.calls.append(('down', np.atleast_1d(inputs['sid']).copy(), {k: np.atleast_1d(v).copy() for k, v in inputs.items()}, out))
             return out
         comps.append(Component(dmodel, inputs=[sid, cvars[0]], outputs=[Variable('d')], name='down', vectorized=True))
@@ -122,7 +135,7 @@ def run_case(ctx, res, case, lines, post):
             Fc = np.array([rhos[s] * sum(case['M'][i][j] * (c[j] if case['kind'] == 'affine' else np.sin(c[j]))
                                          for j in range(n) if j != i) + case['b'][i] for i in range(n)])
             L = max(1.0, rhos[s])
-            if not np.max(np.abs(Fc - c)) <= (L * case['tol']) * 1.0001 + 1e-13:
+            if not np.max(np.abs(Fc - c)) <= (L * case['tol']) * 1.0001 + 1e-13 * max(1.0, float(np.max(np.abs(c)))):
                 res.failures.append({'kind': 'returned-sample-is-not-a-fixed-point-within-tolerance',
                                      'input': {**info, 'sample': s}, 'observed': float(np.max(np.abs(Fc - c))),
                                      'expected_bound': L * case['tol']})
